@@ -204,6 +204,9 @@ fn run_ops(ctx: &mut Ctx, cfg: &Config, ops: &[Op], explore_stalls: bool, forced
 }
 
 pub fn run(run: &RunInfo) -> Summary {
+    // with a logger installed at the most verbose level, as in a deployment that logs: the arguments
+    // of the client's and the sequences' logging statements are evaluated on every path explored
+    crate::util::logging(true);
     let thorough = run.thorough();
     let a = || "A".to_string();
     let scenarios: Vec<(&str, usize, Vec<Op>)> = vec![
@@ -356,7 +359,7 @@ pub fn run(run: &RunInfo) -> Summary {
         transitions: acc.get("transitions"),
         traces_validated: execs,
         distinct_nontrivial: acc.set_len("outcomes"),
-        rule: "real Feig client against the simulated terminal under the paused clock: 6 scenarios (Feig::new + read_card / begin / commit / cancel / commit with another transaction open / configure) x a stall at every terminal-to-client packet position of every exchange (handshake included), at connect (future never resolving) and on the write side (data never accepted), each lasting for this connection only, for the first three connections, or for every connection, and the terminal closing the connection at any packet position; every pair of such faults per history; read_card_timeout 0..=255 each with a reply delayed by 1 s, by half the time-out T, by T - 1 ms and by 60 s -1/+0/+1 ms where that is inside T (must be accepted) and with a permanently silent terminal; transactions_max_num {0,1,usize::MAX}, password/amount/currency at both ends of their wire range, empty / non-numeric / oversized terminal ids, each with a responsive and with a silent terminal. Oracle: every call returns, no panic, virtual elapsed time <= exchanges x 20 x (2 s + 6 x T)".into(),
+        rule: "real Feig client against the simulated terminal under the paused clock: 6 scenarios (Feig::new + read_card / begin / commit / cancel / commit with another transaction open / configure) x a stall at every terminal-to-client packet position of every exchange (handshake included), at connect (future never resolving) and on the write side (data never accepted), each lasting for this connection only, for the first three connections, or for every connection, and the terminal closing the connection at any packet position; every pair of such faults per history; read_card_timeout 0..=255 each with a reply delayed by 1 s, by half the time-out T, by T - 1 ms and by 60 s -1/+0/+1 ms where that is inside T (must be accepted) and with a permanently silent terminal; transactions_max_num {0,1,usize::MAX}, password/amount/currency at both ends of their wire range, empty / non-numeric / oversized terminal ids, each with a responsive and with a silent terminal. A logger that formats every record is installed at level Trace throughout. Oracle: every call returns, no panic, virtual elapsed time <= exchanges x 20 x (2 s + 6 x T)".into(),
         exhaustive: true,
         required_witnesses: vec![
             "the terminal fell silent at some packet position".into(),
